@@ -166,6 +166,41 @@ Proof.
   intros lo hi l. destruct I' as (R' & _). apply (read_all_ok _ _ p _ _ _ R' lo hi).
 Qed.
 
+(* C06 / C15 / C07 over every history: the bytes of the two files are a function of the lines Layer S expects - the data file
+   is the preamble followed by the reference encoding (so every append, also after a recovery, was encoded against the
+   right full timestamp), the index file lists exactly the sections of that encoding *)
+Theorem history_files fs cb0 ops :
+  fs_mem fs (name ++ ext_data) = false -> fs_mem fs (name ++ ext_index) = false -> hvalid_all [] ops ->
+  exists fs0 s0 st', series_new name (N.of_nat p) uhdr [] cb0 fs = (fs0, Ok s0)
+    /\ hrun (fs0, s0) ops = Some st'
+    /\ let l := fold_left hspec ops [] in
+       fs_get (fst st') (name ++ ext_data) = Some (outer header ++ encode p l)
+       /\ fs_get (fst st') (name ++ ext_index) = Some (outer [] ++ enc_index (sections p (encode p l))).
+Proof.
+  intros M1 M2 V. destruct (history_from_create fs cb0 ops M1 M2 V) as (fs0 & s0 & st' & E & HR & (R & N1 & N2) & _).
+  exists fs0, s0, st'. split; [exact E|]. split; [exact HR|]. cbv zeta.
+  pose proof (rh_data _ _ _ _ _ _ R) as RD.
+  pose proof (rd_file _ _ _ _ _ _ _ _ RD) as [G1 _]. pose proof (rd_ix _ _ _ _ _ _ _ _ RD) as [G2 _].
+  rewrite N1 in G1. rewrite N2 in G2. split; assumption.
+Qed.
+
+(* C12 over every history: the accessors report the lines Layer S expects, also after recoveries *)
+Theorem history_accessors fs cb0 ops :
+  fs_mem fs (name ++ ext_data) = false -> fs_mem fs (name ++ ext_index) = false -> hvalid_all [] ops ->
+  exists fs0 s0 st', series_new name (N.of_nat p) uhdr [] cb0 fs = (fs0, Ok s0)
+    /\ hrun (fs0, s0) ops = Some st'
+    /\ let l := fold_left hspec ops [] in
+       data_len_lines (s_data (snd st')) = Ok (len l)
+       /\ s_range (snd st') = first_last l
+       /\ d_p (s_data (snd st')) = p
+       /\ series_last_line (snd st') (fst st') = (fst st', match last_opt l with Some x => Ok x | None => Err ENoData end).
+Proof.
+  intros M1 M2 V. destruct (history_from_create fs cb0 ops M1 M2 V) as (fs0 & s0 & st' & E & HR & (R & _) & _).
+  exists fs0, s0, st'. split; [exact E|]. split; [exact HR|]. cbv zeta.
+  split; [exact (len_ok _ _ _ _ _ _ R)|]. split; [exact (range_ok _ _ _ _ _ _ R)|]. split; [exact (payload_size_ok _ _ _ _ _ _ R)|].
+  exact (last_line_ok _ _ _ _ _ _ R).
+Qed.
+
 (* C01 over every history: the full read returns exactly the lines Layer S expects *)
 Theorem history_full_read fs cb0 ops :
   fs_mem fs (name ++ ext_data) = false -> fs_mem fs (name ++ ext_index) = false -> hvalid_all [] ops ->
@@ -205,21 +240,6 @@ Section HistoryCaches.
 Variables (p:nat) (name:fname) (uhdr:list byte) (Bs:list N).
 Let header := params_to_text BSgen.Consts.version (N.of_nat p) ++ uhdr.
 Let cs := map (open_spec name) Bs.
-
-Lemma push_refused_caches fs s hdr ihdr l ts pay : RepS fs s p hdr ihdr l cs -> (ts < 2^64)%N -> accepts p l ts pay = false ->
-  exists e, push_line s ts pay fs = (fs, Err e).
-Proof.
-  intros R Hts A. unfold push_line. rewrite (rd_p _ _ _ _ _ _ _ _ (rs_data _ _ _ _ _ _ _ R)).
-  unfold accepts in A. unfold len.
-  destruct (length pay =? p) eqn:LP.
-  - apply Nat.eqb_eq in LP. replace (N.of_nat (length pay) =? N.of_nat p)%N with true by (symmetry; apply N.eqb_eq; lia).
-    cbn [negb]. replace (ts <? U64)%N with true in A by (symmetry; apply N.ltb_lt; unfold U64; exact Hts). cbn [andb] in A.
-    rewrite (rs_range _ _ _ _ _ _ _ R), first_last_last_opt.
-    destruct l as [|x t]; [discriminate|]. cbn [last_opt option_map] in *. apply N.ltb_ge in A.
-    replace (ts <=? fst (last t x))%N with true by (symmetry; apply N.leb_le; exact A). eexists. reflexivity.
-  - apply Nat.eqb_neq in LP. replace (N.of_nat (length pay) =? N.of_nat p)%N with false by (symmetry; apply N.eqb_neq; lia).
-    cbn [negb]. eexists. reflexivity.
-Qed.
 
 Hypothesis Hh : (len header <= 65535)%N.
 Hypothesis Hp : (N.of_nat p < 2^64)%N.
@@ -279,7 +299,7 @@ Proof.
   - destruct (accepts p l ts pay) eqn:A.
     + destruct (push_line_caches fs s p _ _ l cs ts pay R A) as (fs' & s' & E & R' & _ & _ & _ & M1 & M2 & M3).
       rewrite E. eexists. split; [reflexivity|]. split; [exact R'|]. cbn [snd]. rewrite M1, M2, M3. repeat split; assumption.
-    + destruct (push_refused_caches fs s _ _ l ts pay R V A) as (e & E). rewrite E. eexists. split; [reflexivity|].
+    + destruct (push_refused_caches fs s p _ _ l cs ts pay R V A) as (e & E). rewrite E. eexists. split; [reflexivity|].
       split; [exact R|repeat split; assumption].
   - pose proof (read_n_returns_levels p fs s _ _ l cs n lo hi R Hsorted) as RT.
     destruct (N.eq_dec n 0) as [->|Hn].
